@@ -12,7 +12,7 @@ META = {
     'assumptions': ['float->int casts outside the i32 range and NaN payloads are not judged', 'transcendental functions are compared with a 2-ulp tolerance'],
     'floors': {'const_folds_checked': 500, 'undefined_diagnosed': 10, 'vm_states_checked': 100, 'const_items_checked': 50, 'inline_vs_named_pairs': 20},
 }
-SIZES = {'quick': 2500, 'thorough': 60000}
+SIZES = {'quick': 7500, 'thorough': 60000}
 
 IB = [0, 1, -1, 2, -2, 3, 7, 31, 32, 33, -32, -33, 255, 65535, 65536, 2147483647, -2147483648, -2147483647, 1073741824, 123456789]
 FB = [0x00000000, 0x80000000, 0x3f800000, 0xbf800000, 0x40000000, 0x3f000000, 0x7f800000, 0xff800000, 0x7f7fffff, 0xff7fffff, 0x00800000, 0x00000001, 0x4f000000, 0xcf000000, 0x4effffff, 0x3dcccccd, 0x40490fdb]
